@@ -18,12 +18,98 @@ macro_rules! store_harness {
 }
 
 store_harness!(c12_q_history_k1, 1, 5);
-store_harness!(c12_q_history_k2, 2, 6);
-store_harness!(c12_t_history_k3, 3, 7);
-// from the populated store {a, b, a->b}: one and two arbitrary operations
-store_harness!(c12_q_from_ab_k1, 1, 6, [(0, 0, 0), (0, 1, 0), (2, 0, 1)]);
-store_harness!(c12_q_from_ab_k2, 2, 7, [(0, 0, 0), (0, 1, 0), (2, 0, 1)]);
-// from {a, b, a->b, b->a, a->a}
-store_harness!(c12_t_from_full_k2, 2, 8, [(0, 0, 0), (0, 1, 0), (2, 0, 1), (2, 1, 0), (2, 0, 0)]);
-// after a removal: {b} with a tombstone for a, then two operations
-store_harness!(c12_t_from_tomb_k2, 2, 7, [(0, 0, 0), (0, 1, 0), (2, 0, 1), (1, 0, 0)]);
+// ONE-STEP (generated)
+// one operation of a concrete kind with symbolic operands from a concrete reachable pre-state; `cnt` compares sizes,
+// identifiers and lookups, `it` the three attack iterators
+macro_rules! step_harness {
+    ($name:ident, $unwind:literal, $kind:literal, $cnt:literal, $it:literal, [$(($pk:literal, $px:literal, $py:literal)),*]) => {
+        #[cfg_attr(kani, kani::proof)]
+        #[cfg_attr(kani, kani::stub(alloc::fmt::format, crate::util::fmt_stub))]
+        #[cfg_attr(kani, kani::stub(std::backtrace::Backtrace::capture, crate::util::bt_stub))]
+        #[cfg_attr(kani, kani::stub(<anyhow::Error as std::ops::Drop>::drop, crate::util::noop_err_drop))]
+        #[cfg_attr(kani, kani::unwind($unwind))]
+        pub fn $name() {
+            one_step(&[$(($pk, $px, $py)),*], $kind, $cnt, $it);
+        }
+    };
+}
+step_harness!(c12_q_empty_add_cnt, 6, 0, true, false, []);
+step_harness!(c12_q_empty_add_it, 6, 0, false, true, []);
+step_harness!(c12_t_empty_rmarg_cnt, 6, 1, true, false, []);
+step_harness!(c12_t_empty_rmarg_it, 6, 1, false, true, []);
+step_harness!(c12_t_empty_att_cnt, 6, 2, true, false, []);
+step_harness!(c12_t_empty_att_it, 6, 2, false, true, []);
+step_harness!(c12_t_empty_rmatt_cnt, 6, 3, true, false, []);
+step_harness!(c12_t_empty_rmatt_it, 6, 3, false, true, []);
+step_harness!(c12_t_a_add_cnt, 6, 0, true, false, [(0, 0, 0)]);
+step_harness!(c12_t_a_add_it, 6, 0, false, true, [(0, 0, 0)]);
+step_harness!(c12_q_a_rmarg_cnt, 6, 1, true, false, [(0, 0, 0)]);
+step_harness!(c12_q_a_rmarg_it, 6, 1, false, true, [(0, 0, 0)]);
+step_harness!(c12_t_a_att_cnt, 6, 2, true, false, [(0, 0, 0)]);
+step_harness!(c12_t_a_att_it, 6, 2, false, true, [(0, 0, 0)]);
+step_harness!(c12_t_a_rmatt_cnt, 6, 3, true, false, [(0, 0, 0)]);
+step_harness!(c12_t_a_rmatt_it, 6, 3, false, true, [(0, 0, 0)]);
+step_harness!(c12_t_ab_add_cnt, 7, 0, true, false, [(0, 0, 0), (0, 1, 0)]);
+step_harness!(c12_t_ab_add_it, 7, 0, false, true, [(0, 0, 0), (0, 1, 0)]);
+step_harness!(c12_t_ab_rmarg_cnt, 7, 1, true, false, [(0, 0, 0), (0, 1, 0)]);
+step_harness!(c12_t_ab_rmarg_it, 7, 1, false, true, [(0, 0, 0), (0, 1, 0)]);
+step_harness!(c12_q_ab_att_cnt, 7, 2, true, false, [(0, 0, 0), (0, 1, 0)]);
+step_harness!(c12_q_ab_att_it, 7, 2, false, true, [(0, 0, 0), (0, 1, 0)]);
+step_harness!(c12_t_ab_rmatt_cnt, 7, 3, true, false, [(0, 0, 0), (0, 1, 0)]);
+step_harness!(c12_t_ab_rmatt_it, 7, 3, false, true, [(0, 0, 0), (0, 1, 0)]);
+step_harness!(c12_t_a2b_add_cnt, 7, 0, true, false, [(0, 0, 0), (0, 1, 0), (2, 0, 1)]);
+step_harness!(c12_t_a2b_add_it, 7, 0, false, true, [(0, 0, 0), (0, 1, 0), (2, 0, 1)]);
+step_harness!(c12_q_a2b_rmarg_cnt, 7, 1, true, false, [(0, 0, 0), (0, 1, 0), (2, 0, 1)]);
+step_harness!(c12_q_a2b_rmarg_it, 7, 1, false, true, [(0, 0, 0), (0, 1, 0), (2, 0, 1)]);
+step_harness!(c12_t_a2b_att_cnt, 7, 2, true, false, [(0, 0, 0), (0, 1, 0), (2, 0, 1)]);
+step_harness!(c12_t_a2b_att_it, 7, 2, false, true, [(0, 0, 0), (0, 1, 0), (2, 0, 1)]);
+step_harness!(c12_q_a2b_rmatt_cnt, 7, 3, true, false, [(0, 0, 0), (0, 1, 0), (2, 0, 1)]);
+step_harness!(c12_q_a2b_rmatt_it, 7, 3, false, true, [(0, 0, 0), (0, 1, 0), (2, 0, 1)]);
+step_harness!(c12_t_full_add_cnt, 8, 0, true, false, [(0, 0, 0), (0, 1, 0), (2, 0, 1), (2, 1, 0), (2, 0, 0)]);
+step_harness!(c12_t_full_add_it, 8, 0, false, true, [(0, 0, 0), (0, 1, 0), (2, 0, 1), (2, 1, 0), (2, 0, 0)]);
+step_harness!(c12_q_full_rmarg_cnt, 8, 1, true, false, [(0, 0, 0), (0, 1, 0), (2, 0, 1), (2, 1, 0), (2, 0, 0)]);
+step_harness!(c12_q_full_rmarg_it, 8, 1, false, true, [(0, 0, 0), (0, 1, 0), (2, 0, 1), (2, 1, 0), (2, 0, 0)]);
+step_harness!(c12_t_full_att_cnt, 8, 2, true, false, [(0, 0, 0), (0, 1, 0), (2, 0, 1), (2, 1, 0), (2, 0, 0)]);
+step_harness!(c12_t_full_att_it, 8, 2, false, true, [(0, 0, 0), (0, 1, 0), (2, 0, 1), (2, 1, 0), (2, 0, 0)]);
+step_harness!(c12_q_full_rmatt_cnt, 8, 3, true, false, [(0, 0, 0), (0, 1, 0), (2, 0, 1), (2, 1, 0), (2, 0, 0)]);
+step_harness!(c12_q_full_rmatt_it, 8, 3, false, true, [(0, 0, 0), (0, 1, 0), (2, 0, 1), (2, 1, 0), (2, 0, 0)]);
+step_harness!(c12_t_tomb_attacker_add_cnt, 8, 0, true, false, [(0, 0, 0), (0, 1, 0), (2, 0, 1), (1, 0, 0)]);
+step_harness!(c12_t_tomb_attacker_add_it, 8, 0, false, true, [(0, 0, 0), (0, 1, 0), (2, 0, 1), (1, 0, 0)]);
+step_harness!(c12_t_tomb_attacker_rmarg_cnt, 8, 1, true, false, [(0, 0, 0), (0, 1, 0), (2, 0, 1), (1, 0, 0)]);
+step_harness!(c12_t_tomb_attacker_rmarg_it, 8, 1, false, true, [(0, 0, 0), (0, 1, 0), (2, 0, 1), (1, 0, 0)]);
+step_harness!(c12_q_tomb_attacker_att_cnt, 8, 2, true, false, [(0, 0, 0), (0, 1, 0), (2, 0, 1), (1, 0, 0)]);
+step_harness!(c12_q_tomb_attacker_att_it, 8, 2, false, true, [(0, 0, 0), (0, 1, 0), (2, 0, 1), (1, 0, 0)]);
+step_harness!(c12_t_tomb_attacker_rmatt_cnt, 8, 3, true, false, [(0, 0, 0), (0, 1, 0), (2, 0, 1), (1, 0, 0)]);
+step_harness!(c12_t_tomb_attacker_rmatt_it, 8, 3, false, true, [(0, 0, 0), (0, 1, 0), (2, 0, 1), (1, 0, 0)]);
+step_harness!(c12_t_tomb_target_add_cnt, 8, 0, true, false, [(0, 0, 0), (0, 1, 0), (2, 0, 1), (1, 1, 0)]);
+step_harness!(c12_t_tomb_target_add_it, 8, 0, false, true, [(0, 0, 0), (0, 1, 0), (2, 0, 1), (1, 1, 0)]);
+step_harness!(c12_q_tomb_target_rmarg_cnt, 8, 1, true, false, [(0, 0, 0), (0, 1, 0), (2, 0, 1), (1, 1, 0)]);
+step_harness!(c12_q_tomb_target_rmarg_it, 8, 1, false, true, [(0, 0, 0), (0, 1, 0), (2, 0, 1), (1, 1, 0)]);
+step_harness!(c12_t_tomb_target_att_cnt, 8, 2, true, false, [(0, 0, 0), (0, 1, 0), (2, 0, 1), (1, 1, 0)]);
+step_harness!(c12_t_tomb_target_att_it, 8, 2, false, true, [(0, 0, 0), (0, 1, 0), (2, 0, 1), (1, 1, 0)]);
+step_harness!(c12_t_tomb_target_rmatt_cnt, 8, 3, true, false, [(0, 0, 0), (0, 1, 0), (2, 0, 1), (1, 1, 0)]);
+step_harness!(c12_t_tomb_target_rmatt_it, 8, 3, false, true, [(0, 0, 0), (0, 1, 0), (2, 0, 1), (1, 1, 0)]);
+step_harness!(c12_t_readded_add_cnt, 9, 0, true, false, [(0, 0, 0), (0, 1, 0), (2, 0, 1), (1, 1, 0), (0, 1, 0), (2, 1, 1)]);
+step_harness!(c12_t_readded_add_it, 9, 0, false, true, [(0, 0, 0), (0, 1, 0), (2, 0, 1), (1, 1, 0), (0, 1, 0), (2, 1, 1)]);
+step_harness!(c12_t_readded_rmarg_cnt, 9, 1, true, false, [(0, 0, 0), (0, 1, 0), (2, 0, 1), (1, 1, 0), (0, 1, 0), (2, 1, 1)]);
+step_harness!(c12_t_readded_rmarg_it, 9, 1, false, true, [(0, 0, 0), (0, 1, 0), (2, 0, 1), (1, 1, 0), (0, 1, 0), (2, 1, 1)]);
+step_harness!(c12_t_readded_att_cnt, 9, 2, true, false, [(0, 0, 0), (0, 1, 0), (2, 0, 1), (1, 1, 0), (0, 1, 0), (2, 1, 1)]);
+step_harness!(c12_t_readded_att_it, 9, 2, false, true, [(0, 0, 0), (0, 1, 0), (2, 0, 1), (1, 1, 0), (0, 1, 0), (2, 1, 1)]);
+step_harness!(c12_q_readded_rmatt_cnt, 9, 3, true, false, [(0, 0, 0), (0, 1, 0), (2, 0, 1), (1, 1, 0), (0, 1, 0), (2, 1, 1)]);
+step_harness!(c12_q_readded_rmatt_it, 9, 3, false, true, [(0, 0, 0), (0, 1, 0), (2, 0, 1), (1, 1, 0), (0, 1, 0), (2, 1, 1)]);
+step_harness!(c12_t_detached_add_cnt, 8, 0, true, false, [(0, 0, 0), (0, 1, 0), (2, 0, 1), (2, 1, 0), (3, 0, 1)]);
+step_harness!(c12_t_detached_add_it, 8, 0, false, true, [(0, 0, 0), (0, 1, 0), (2, 0, 1), (2, 1, 0), (3, 0, 1)]);
+step_harness!(c12_q_detached_rmarg_cnt, 8, 1, true, false, [(0, 0, 0), (0, 1, 0), (2, 0, 1), (2, 1, 0), (3, 0, 1)]);
+step_harness!(c12_q_detached_rmarg_it, 8, 1, false, true, [(0, 0, 0), (0, 1, 0), (2, 0, 1), (2, 1, 0), (3, 0, 1)]);
+step_harness!(c12_t_detached_att_cnt, 8, 2, true, false, [(0, 0, 0), (0, 1, 0), (2, 0, 1), (2, 1, 0), (3, 0, 1)]);
+step_harness!(c12_t_detached_att_it, 8, 2, false, true, [(0, 0, 0), (0, 1, 0), (2, 0, 1), (2, 1, 0), (3, 0, 1)]);
+step_harness!(c12_t_detached_rmatt_cnt, 8, 3, true, false, [(0, 0, 0), (0, 1, 0), (2, 0, 1), (2, 1, 0), (3, 0, 1)]);
+step_harness!(c12_t_detached_rmatt_it, 8, 3, false, true, [(0, 0, 0), (0, 1, 0), (2, 0, 1), (2, 1, 0), (3, 0, 1)]);
+step_harness!(c12_q_emptied_add_cnt, 7, 0, true, false, [(0, 0, 0), (1, 0, 0)]);
+step_harness!(c12_q_emptied_add_it, 7, 0, false, true, [(0, 0, 0), (1, 0, 0)]);
+step_harness!(c12_t_emptied_rmarg_cnt, 7, 1, true, false, [(0, 0, 0), (1, 0, 0)]);
+step_harness!(c12_t_emptied_rmarg_it, 7, 1, false, true, [(0, 0, 0), (1, 0, 0)]);
+step_harness!(c12_t_emptied_att_cnt, 7, 2, true, false, [(0, 0, 0), (1, 0, 0)]);
+step_harness!(c12_t_emptied_att_it, 7, 2, false, true, [(0, 0, 0), (1, 0, 0)]);
+step_harness!(c12_t_emptied_rmatt_cnt, 7, 3, true, false, [(0, 0, 0), (1, 0, 0)]);
+step_harness!(c12_t_emptied_rmatt_it, 7, 3, false, true, [(0, 0, 0), (1, 0, 0)]);
